@@ -62,7 +62,7 @@ fn main() {
         let has = before.iter().position(|e| e.0 == k);
         // no_dup: IndexMap's own invariant
         for (i, a) in before.iter().enumerate() { for b in &before[i + 1..] { assert_ne!(a.0, b.0); } }
-        match rng.below(16) {
+        match rng.below(17) {
             0 => { let r = m.insert(k, v); let after = view(&m);
                    match has { Some(i) => { assert_eq!(r, Some(before[i].1)); let mut e = before.clone(); e[i] = (before[i].0, v); assert_eq!(after, e); }
                                None => { assert_eq!(r, None); let mut e = before.clone(); e.push((k, v)); assert_eq!(after, e); } } }
@@ -94,6 +94,11 @@ fn main() {
                    let mut e = before.clone(); match has { Some(i) => e[i].1 = v, None => e.push((k, v)) } assert_eq!(view(&m), e); }
             10 => { let keep_below = rng.below(30) as u16; m.retain2(|kk, _| *kk < keep_below); assert!(m.len() <= before.len());
                     let e: Vec<_> = before.iter().copied().filter(|x| x.0 < keep_below).collect(); assert_eq!(view(&m), e); }
+            16 => { // iter_mut2: every entry once, in slot order, length unchanged; retain2 with a closure that ignores the entries
+                    let mut n = 0usize; for (kk, vv) in m.iter_mut2() { assert_eq!((*kk, *vv), before[n]); n += 1; } assert_eq!(n, before.len()); assert_eq!(view(&m), before);
+                    let flags: Vec<bool> = (0..before.len() / 2 + rng.below(before.len() as u64 + 2) as usize).map(|_| rng.below(3) != 0).collect();
+                    let mut it = flags.clone().into_iter(); m.retain2(|_, _| it.next().unwrap_or(true));
+                    let e: Vec<_> = before.iter().copied().enumerate().filter(|(j, _)| flags.get(*j).copied().unwrap_or(true)).map(|x| x.1).collect(); assert_eq!(view(&m), e); }
             11 => { let add = rng.below(40) as usize; m.reserve(add); assert_eq!(view(&m), before); assert!(m.capacity() >= before.len() + add);
                     m.try_reserve(add).unwrap(); assert_eq!(view(&m), before); m.shrink_to_fit(); assert_eq!(view(&m), before); assert!(m.capacity() >= before.len()); }
             12 => { let n = rng.below(4) as usize; let mut d = m.drain(..); let mut got = vec![];
